@@ -292,13 +292,13 @@ theorem stepG_spec_start {gid ctx0 : Nat} {pn : Bool} {k : List Frame} {w : Worl
     refine ⟨by simp [tlGet, setVar, ctxUpd, note, tlFresh, aget], by simp [setVar, ctxUpd, note], rfl⟩
 
 theorem mkSpecS {gid ctx0 : Nat} {pn : Bool} {k : List Frame} {w w' : World} {x : Option CtxId} {pn' : Bool} {k' : List Frame}
-    (hp : w.pending = []) (hg : GOK w ⟨gid, ctx0, true, pn, k⟩) (s : Step x w w') (l : Loc gid none w w')
+    (hp : w.pending = []) (hgl : gid < w.nextGid) (s : Step x w w') (l : Loc gid none w w')
     (hld : w.nextLoader ≤ w'.nextLoader)
     (hx : ∀ i, x = some i → i < w.nextCtx → (gid, i) ∈ w.estab)
     (hng : w'.nextGid = w.nextGid)
     (hk : StackOK gid w'.estab (tlGet gid ctxKey w') k') :
     GSpec ⟨gid, ctx0, true, pn, k⟩ w { g := ⟨gid, ctx0, true, pn', k'⟩, w := w' } :=
-  mkSpec (x := x) hp s (by simpa using l) hld (fun i hi hlt => Or.inl (hx i hi hlt)) rfl rfl hng hg.glt rfl hk
+  mkSpec (x := x) hp s (by simpa using l) hld (fun i hi hlt => Or.inl (hx i hi hlt)) rfl rfl hng hgl rfl hk
 
 theorem tlGet_emit (g g' : Gid) (e : Ev) (w : World) : tlGet g ctxKey (emit g' e w) = tlGet g ctxKey w := rfl
 theorem tlGet_ctxUpd (g : Gid) (c : CtxId) (f : Ctx → Ctx) (w : World) : tlGet g ctxKey (ctxUpd c f w) = tlGet g ctxKey w := rfl
@@ -313,30 +313,30 @@ theorem stepG_spec_panic {gid ctx0 : Nat} {k : List Frame} {w : World}
   | nil =>
     have e : stepG ⟨gid, ctx0, true, true, []⟩ w = { g := ⟨gid, ctx0, true, false, []⟩, w := w } := by simp [stepG]
     rw [e]
-    exact mkSpecS (x := none) hp hg (Step.refl hinv) Loc.refl (Nat.le_refl _) (fun _ h => by cases h) rfl hst
+    exact mkSpecS (x := none) hp hgl (Step.refl hinv) Loc.refl (Nat.le_refl _) (fun _ h => by cases h) rfl hst
   | cons f k =>
     cases f with
     | run p c =>
       have e : stepG ⟨gid, ctx0, true, true, .run p c :: k⟩ w = { g := ⟨gid, ctx0, true, true, k⟩, w := w } := by simp [stepG]
       rw [e]
-      exact mkSpecS (x := none) hp hg (Step.refl hinv) Loc.refl (Nat.le_refl _) (fun _ h => by cases h) rfl hst.2.2
+      exact mkSpecS (x := none) hp hgl (Step.refl hinv) Loc.refl (Nat.le_refl _) (fun _ h => by cases h) rfl hst.2.2
     | parent id ctch p root =>
       have e : stepG ⟨gid, ctx0, true, true, .parent id ctch p root :: k⟩ w = { g := ⟨gid, ctx0, true, true, k⟩, w := w } := by
         simp [stepG]
       rw [e]
-      exact mkSpecS (x := none) hp hg (Step.refl hinv) Loc.refl (Nat.le_refl _) (fun _ h => by cases h) rfl hst.2.2
+      exact mkSpecS (x := none) hp hgl (Step.refl hinv) Loc.refl (Nat.le_refl _) (fun _ h => by cases h) rfl hst.2.2
     | restoreCtx save =>
       obtain ⟨w1, he, sp⟩ := dwcExit_spec (save := save) hinv hp hgl hst.1
       have e : stepG ⟨gid, ctx0, true, true, .restoreCtx save :: k⟩ w = { g := ⟨gid, ctx0, true, true, k⟩, w := w1 } := by
         simp [stepG, he]
       rw [e]
-      refine mkSpecS (x := none) hp hg sp.s sp.l (by rw [sp.nl]; exact Nat.le_refl _) (fun _ h => by cases h) sp.ng ?_
+      refine mkSpecS (x := none) hp hgl sp.s sp.l (by rw [sp.nl]; exact Nat.le_refl _) (fun _ h => by cases h) sp.ng ?_
       rw [sp.cur, sp.est]; exact hst.2
     | restoreLoader c l =>
       have e : stepG ⟨gid, ctx0, true, true, .restoreLoader c l :: k⟩ w =
           { g := ⟨gid, ctx0, true, true, k⟩, w := ctxUpd c (fun y => { y with loader := l }) w } := by simp [stepG]
       rw [e]
-      refine mkSpecS (x := some c) hp hg (ctxUpd_step hinv) (Loc.of_same rfl rfl rfl) (Nat.le_refl _) ?_ rfl hst.2
+      refine mkSpecS (x := some c) hp hgl (ctxUpd_step hinv) (Loc.of_same rfl rfl rfl) (Nat.le_refl _) ?_ rfl hst.2
       intro i hi _
       have : i = c := by simpa using hi.symm
       rw [this]; exact hst.1
@@ -344,7 +344,7 @@ theorem stepG_spec_panic {gid ctx0 : Nat} {k : List Frame} {w : World}
       have e : stepG ⟨gid, ctx0, true, true, .catchK :: k⟩ w =
           { g := ⟨gid, ctx0, true, false, k⟩, w := emit gid .recovered w } := by simp [stepG]
       rw [e]
-      exact mkSpecS (x := none) hp hg (emit_step hinv EvOK.recovered) (Loc.of_same rfl rfl rfl) (Nat.le_refl _)
+      exact mkSpecS (x := none) hp hgl (emit_step hinv EvOK.recovered) (Loc.of_same rfl rfl rfl) (Nat.le_refl _)
         (fun _ h => by cases h) rfl hst
     | endG =>
       have e : stepG ⟨gid, ctx0, true, true, .endG :: k⟩ w =
@@ -352,7 +352,7 @@ theorem stepG_spec_panic {gid ctx0 : Nat} {k : List Frame} {w : World}
       rw [e]
       have s1 := emit_step (g := gid) (e := .done .panicked) hinv EvOK.done
       have s2 := tlCleanup_step (g := gid) s1.inv hgl (not_pend_of_nil hp _)
-      refine mkSpecS (x := none) hp hg (s1.trans s2 (fun _ _ h => h))
+      refine mkSpecS (x := none) hp hgl (s1.trans s2 (fun _ _ h => h))
         (Loc.trans (w := w) (w1 := emit gid (.done .panicked) w) (Loc.of_same rfl rfl rfl) tlCleanup_loc (Nat.le_refl _))
         (Nat.le_refl _) (fun _ h => by cases h) rfl ?_
       simp [StackOK, tlGet, tlCleanup]
@@ -360,7 +360,7 @@ theorem stepG_spec_panic {gid ctx0 : Nat} {k : List Frame} {w : World}
       have e : stepG ⟨gid, ctx0, true, true, .endRoot :: k⟩ w =
           { g := ⟨gid, ctx0, true, false, []⟩, w := emit gid (.done .panicked) w } := by simp [stepG]
       rw [e]
-      refine mkSpecS (x := none) hp hg (emit_step hinv EvOK.done) (Loc.of_same rfl rfl rfl) (Nat.le_refl _)
+      refine mkSpecS (x := none) hp hgl (emit_step hinv EvOK.done) (Loc.of_same rfl rfl rfl) (Nat.le_refl _)
         (fun _ h => by cases h) rfl ?_
       exact hst.2
 
@@ -410,11 +410,9 @@ theorem spawnS_spec {gid ctx0 : Nat} {k : List Frame} {c : CtxId} {p pq : Prog} 
 
 /-- `pcore.Do` / `pcore.Try` up to the call of `DoWithParent` (any current context, also none) -/
 theorem doEnter_spec {gid ctx0 : Nat} {k0 k : List Frame} {id : Nat} {ctch : Bool} {p : Prog} {w : World}
-    (hinv : Inv w) (hp : w.pending = []) (hg : GOK w ⟨gid, ctx0, true, false, k0⟩)
+    (hinv : Inv w) (hp : w.pending = []) (hgl : gid < w.nextGid)
     (hk : StackOK gid w.estab (tlGet gid ctxKey w) k) :
     GSpec ⟨gid, ctx0, true, false, k0⟩ w (doEnter ⟨gid, ctx0, true, false, k0⟩ k id ctch p w) := by
-  have hgl := hg.glt
-  simp only at hgl
   have s0 : Step none w (newCtx { loader := [0] } w).2 := newCtx_step hinv
   obtain ⟨save, w2, he, sp⟩ := dwcEnter_spec (g := gid) (cx := w.nextCtx) (w := (newCtx { loader := [0] } w).2)
     s0.inv hp hgl (Nat.lt_succ_self _) (fun g' => ctx_fresh_not_estab hinv g')
@@ -424,7 +422,7 @@ theorem doEnter_spec {gid ctx0 : Nat} {k0 k : List Frame} {id : Nat} {ctch : Boo
     simp [doEnter, hroot, he]
   rw [e]
   have sAll : Step none w w2 := s0.trans sp.s (fun _ _ h => h)
-  refine mkSpecS (x := none) hp hg sAll ?_ ?_ (fun _ h => by cases h) ?_ ?_
+  refine mkSpecS (x := none) hp hgl sAll ?_ ?_ (fun _ h => by cases h) ?_ ?_
   · refine Loc.fresh (cx := w.nextCtx) ?_ (Nat.le_refl _)
     exact (Loc.trans (w := w) (w1 := (newCtx { loader := [0] } w).2) (Loc.of_same rfl rfl rfl) sp.l (Nat.le_succ _))
   · rw [sp.nl]; exact Nat.le_refl _
@@ -447,18 +445,18 @@ theorem stepG_spec_run {gid ctx0 : Nat} {k : List Frame} {p : Prog} {c : CtxId} 
   | skip =>
     have e : stepG ⟨gid, ctx0, true, false, .run .skip c :: k⟩ w = { g := ⟨gid, ctx0, true, false, k⟩, w := w } := by simp [stepG]
     rw [e]
-    exact mkSpecS (x := none) hp hg (Step.refl hinv) Loc.refl (Nat.le_refl _) (fun _ h => by cases h) rfl hk
+    exact mkSpecS (x := none) hp hgl (Step.refl hinv) Loc.refl (Nat.le_refl _) (fun _ h => by cases h) rfl hk
   | seq p q =>
     have e : stepG ⟨gid, ctx0, true, false, .run (.seq p q) c :: k⟩ w =
         { g := ⟨gid, ctx0, true, false, .run p c :: .run q c :: k⟩, w := w } := by simp [stepG]
     rw [e]
-    exact mkSpecS (x := none) hp hg (Step.refl hinv) Loc.refl (Nat.le_refl _) (fun _ h => by cases h) rfl
+    exact mkSpecS (x := none) hp hgl (Step.refl hinv) Loc.refl (Nat.le_refl _) (fun _ h => by cases h) rfl
       ⟨hcur, hest, hcur, hest, hk⟩
   | recover p =>
     have e : stepG ⟨gid, ctx0, true, false, .run (.recover p) c :: k⟩ w =
         { g := ⟨gid, ctx0, true, false, .run p c :: .catchK :: k⟩, w := w } := by simp [stepG]
     rw [e]
-    exact mkSpecS (x := none) hp hg (Step.refl hinv) Loc.refl (Nat.le_refl _) (fun _ h => by cases h) rfl
+    exact mkSpecS (x := none) hp hgl (Step.refl hinv) Loc.refl (Nat.le_refl _) (fun _ h => by cases h) rfl
       ⟨hcur, hest, hk⟩
   | leaf l =>
     have hpre : Pre gid c w := ⟨hinv, hcur, hgl, hgp, hest⟩
@@ -468,7 +466,7 @@ theorem stepG_spec_run {gid ctx0 : Nat} {k : List Frame} {p : Prog} {c : CtxId} 
         { g := ⟨gid, ctx0, true, decide ((leafStep gid c l w).1 = .panicked), k⟩, w := (leafStep gid c l w).2 } := by
       by_cases h : (leafStep gid c l w).1 = .panicked <;> simp [stepG, panicS, h]
     rw [e]
-    refine mkSpecS (x := some c) hp hg sl (Loc.of_same tl e1 e2) (by rw [e4]; exact Nat.le_refl _) ?_ e3 ?_
+    refine mkSpecS (x := some c) hp hgl sl (Loc.of_same tl e1 e2) (by rw [e4]; exact Nat.le_refl _) ?_ e3 ?_
     · intro i hi _
       have : i = c := by simpa using hi.symm
       rw [this]; exact hest
@@ -484,7 +482,7 @@ theorem stepG_spec_run {gid ctx0 : Nat} {k : List Frame} {p : Prog} {c : CtxId} 
     rw [e]
     have sAll : Step (some w.nextCtx) w w2 :=
       (sF.weaken.trans sV (fun _ _ h => h)).trans sp.s (fun _ _ _ => by simp)
-    refine mkSpecS (x := some w.nextCtx) hp hg sAll ?_ ?_ ?_ ?_ ?_
+    refine mkSpecS (x := some w.nextCtx) hp hgl sAll ?_ ?_ ?_ ?_ ?_
     · refine Loc.fresh (cx := w.nextCtx) ?_ (Nat.le_refl _)
       exact (Loc.trans (w := w) (w1 := setVar w.nextCtx tagKey id (forkCtx c w).2) (Loc.of_same rfl rfl rfl) sp.l
         (Nat.le_succ _))
@@ -502,12 +500,12 @@ theorem stepG_spec_run {gid ctx0 : Nat} {k : List Frame} {p : Prog} {c : CtxId} 
     have e : stepG ⟨gid, ctx0, true, false, .run (.dodo id p) c :: k⟩ w =
         doEnter ⟨gid, ctx0, true, false, .run (.dodo id p) c :: k⟩ k id false p w := by simp [stepG]
     rw [e]
-    exact doEnter_spec hinv hp hg (hcur ▸ hk)
+    exact doEnter_spec hinv hp hgl (hcur ▸ hk)
   | dotry id p =>
     have e : stepG ⟨gid, ctx0, true, false, .run (.dotry id p) c :: k⟩ w =
         doEnter ⟨gid, ctx0, true, false, .run (.dotry id p) c :: k⟩ k id true p w := by simp [stepG]
     rw [e]
-    exact doEnter_spec hinv hp hg (hcur ▸ hk)
+    exact doEnter_spec hinv hp hgl (hcur ▸ hk)
   | doloader p =>
     have e : stepG ⟨gid, ctx0, true, false, .run (.doloader p) c :: k⟩ w =
         { g := ⟨gid, ctx0, true, false, .run p c :: .restoreLoader c (w.ctxs c).loader :: k⟩,
@@ -516,7 +514,7 @@ theorem stepG_spec_run {gid ctx0 : Nat} {k : List Frame} {p : Prog} {c : CtxId} 
     rw [e]
     have s1 : Step none w (newLoader w).2 := newLoader_step hinv
     have s2 := ctxUpd_step (c := c) (f := fun y => { y with loader := (newLoader w).1 :: (w.ctxs c).loader }) s1.inv
-    refine mkSpecS (x := some c) hp hg (s1.weaken.trans s2 (fun _ _ h => h)) (Loc.of_same rfl rfl rfl) (Nat.le_succ _) ?_ rfl ?_
+    refine mkSpecS (x := some c) hp hgl (s1.weaken.trans s2 (fun _ _ h => h)) (Loc.of_same rfl rfl rfl) (Nat.le_succ _) ?_ rfl ?_
     · intro i hi _
       have : i = c := by simpa using hi.symm
       rw [this]; exact hest
@@ -542,7 +540,7 @@ theorem stepG_spec_normal {gid ctx0 : Nat} {k : List Frame} {w : World}
   | nil =>
     have e : stepG ⟨gid, ctx0, true, false, []⟩ w = { g := ⟨gid, ctx0, true, false, []⟩, w := w } := by simp [stepG]
     rw [e]
-    exact mkSpecS (x := none) hp hg (Step.refl hinv) Loc.refl (Nat.le_refl _) (fun _ h => by cases h) rfl hst
+    exact mkSpecS (x := none) hp hgl (Step.refl hinv) Loc.refl (Nat.le_refl _) (fun _ h => by cases h) rfl hst
   | cons f k =>
     cases f with
     | run p c => exact stepG_spec_run hinv hp hg
@@ -559,7 +557,7 @@ theorem stepG_spec_normal {gid ctx0 : Nat} {k : List Frame} {w : World}
       rw [e]
       have sAll : Step (some w.nextCtx) w (setVar w.nextCtx tagKey id w2) :=
         ((sF.trans sp.s (fun _ _ h => h)).weaken).trans sV (fun _ _ h => h)
-      refine mkSpecS (x := some w.nextCtx) hp hg sAll ?_ ?_ ?_ ?_ ?_
+      refine mkSpecS (x := some w.nextCtx) hp hgl sAll ?_ ?_ ?_ ?_ ?_
       · refine Loc.fresh (cx := w.nextCtx) ?_ (Nat.le_refl _)
         exact Loc.trans (w := w) (w1 := w2)
           (Loc.trans (w := w) (w1 := (forkCtx root w).2) (Loc.of_same rfl rfl rfl) sp.l (Nat.le_succ _))
@@ -586,27 +584,27 @@ theorem stepG_spec_normal {gid ctx0 : Nat} {k : List Frame} {w : World}
       have e : stepG ⟨gid, ctx0, true, false, .restoreCtx save :: k⟩ w = { g := ⟨gid, ctx0, true, false, k⟩, w := w1 } := by
         simp [stepG, he]
       rw [e]
-      refine mkSpecS (x := none) hp hg sp.s sp.l (by rw [sp.nl]; exact Nat.le_refl _) (fun _ h => by cases h) sp.ng ?_
+      refine mkSpecS (x := none) hp hgl sp.s sp.l (by rw [sp.nl]; exact Nat.le_refl _) (fun _ h => by cases h) sp.ng ?_
       rw [sp.cur, sp.est]; exact hst.2
     | restoreLoader c l =>
       have e : stepG ⟨gid, ctx0, true, false, .restoreLoader c l :: k⟩ w =
           { g := ⟨gid, ctx0, true, false, k⟩, w := ctxUpd c (fun y => { y with loader := l }) w } := by simp [stepG]
       rw [e]
-      refine mkSpecS (x := some c) hp hg (ctxUpd_step hinv) (Loc.of_same rfl rfl rfl) (Nat.le_refl _) ?_ rfl hst.2
+      refine mkSpecS (x := some c) hp hgl (ctxUpd_step hinv) (Loc.of_same rfl rfl rfl) (Nat.le_refl _) ?_ rfl hst.2
       intro i hi _
       have : i = c := by simpa using hi.symm
       rw [this]; exact hst.1
     | catchK =>
       have e : stepG ⟨gid, ctx0, true, false, .catchK :: k⟩ w = { g := ⟨gid, ctx0, true, false, k⟩, w := w } := by simp [stepG]
       rw [e]
-      exact mkSpecS (x := none) hp hg (Step.refl hinv) Loc.refl (Nat.le_refl _) (fun _ h => by cases h) rfl hst
+      exact mkSpecS (x := none) hp hgl (Step.refl hinv) Loc.refl (Nat.le_refl _) (fun _ h => by cases h) rfl hst
     | endG =>
       have e : stepG ⟨gid, ctx0, true, false, .endG :: k⟩ w =
           { g := ⟨gid, ctx0, true, false, []⟩, w := tlCleanup gid (emit gid (.done .normal) w) } := by simp [stepG]
       rw [e]
       have s1 := emit_step (g := gid) (e := .done .normal) hinv EvOK.done
       have s2 := tlCleanup_step (g := gid) s1.inv hgl (not_pend_of_nil hp _)
-      refine mkSpecS (x := none) hp hg (s1.trans s2 (fun _ _ h => h))
+      refine mkSpecS (x := none) hp hgl (s1.trans s2 (fun _ _ h => h))
         (Loc.trans (w := w) (w1 := emit gid (.done .normal) w) (Loc.of_same rfl rfl rfl) tlCleanup_loc (Nat.le_refl _))
         (Nat.le_refl _) (fun _ h => by cases h) rfl ?_
       simp [StackOK, tlGet, tlCleanup]
@@ -614,7 +612,7 @@ theorem stepG_spec_normal {gid ctx0 : Nat} {k : List Frame} {w : World}
       have e : stepG ⟨gid, ctx0, true, false, .endRoot :: k⟩ w =
           { g := ⟨gid, ctx0, true, false, []⟩, w := emit gid (.done .normal) w } := by simp [stepG]
       rw [e]
-      refine mkSpecS (x := none) hp hg (emit_step hinv EvOK.done) (Loc.of_same rfl rfl rfl) (Nat.le_refl _)
+      refine mkSpecS (x := none) hp hgl (emit_step hinv EvOK.done) (Loc.of_same rfl rfl rfl) (Nat.le_refl _)
         (fun _ h => by cases h) rfl ?_
       exact hst.2
 
